@@ -15,16 +15,17 @@ CONFIG = {
         "the schema environment is the one the real j5schema reflector derives (ClientProperties, dumped per run); flattening / oneof exposure logic is an input of the model, not part of it",
     ],
     "assumptions": [
+        "j5 Any values: the decoder stores json.Compact of the raw value text; the model works on tokens and stores the tokens re-printed without whitespace and with minimal string escapes, and the correspondence re-prints the implementation's stored bytes the same way before comparing — the payload is tied member by member and in order, but not in the spelling of string escapes (\\u00fc vs the raw character); the direct oracle of C03 (any-payload stream) compares the stored j5_json byte for byte with json.Compact of the member's text (member order, repeated names, escapes, number spellings)",
         "model/CodecDec.v + CodecDecScalar.v + CodecDecQuery.v are the hand-written model of internal/codec/decoder.go, query.go and the parts of lib/j5reflect they drive; tied to the code by the regenerated switch tables and by the correspondence streams of this run",
         "url.Values is a Go map: the query model takes the (key, values) pairs in visiting order, the theorem holds for every order; the correspondence accepts an observation that the model produces for some order of the keys (exact for single-key queries); strcase.ToLowerCamel and strings.TrimSpace are modelled in lib/Strcase.v",
         "codec options: the default codec (lib/j5codec.NewCodec()); WithProtoToAny (nested decode + proto.Marshal inside decodeAny) is not modelled",
-        "the Go runtime's stack limit is outside the model: the theorem bounds recursion depth by the token count; the decoder's own nesting bound (10000 property values, C06_nesting_bounded) caps the recursion depth; the harness decodes 10^6-deep documents in a crash-isolated child process",
+        "the Go runtime's stack limit is outside the model: the theorem bounds recursion depth by the token count; the decoder's own nesting bound (10000 property values, C06_nesting_bounded) caps the recursion depth; the harness runs every call in a killable worker process (stack limit 96 MB, resident-memory limit 1.5 GB, deadline 8 s + 60 us/byte): documents nested 4x10^5 and 10^6 deep on the recursive type, through a repeated and through a map message field",
     ],
     "mult_search": 3,
     "refuted": [],
     "partial": [
         "proved in full over the model: JSONToProto and QueryToProto never panic and never exhaust fuel S(tokens) (C06_full); the nesting of property values is bounded by the constant 10000 (C06_nesting_bounded)",
-        "\"in time bounded by the input size\" has NO theorem: the fuel bounds the recursion, not the work; a per-call timing budget in the harness (2 s + 50 us/byte, 10^6-deep documents in a child process) is the only check; the error path of deeply nested documents is quadratic in the depth (capped by the nesting bound)",
+        "\"in time bounded by the input size\" has NO theorem: the fuel bounds the recursion, not the work; a per-call timing budget in the harness (2 s + 50 us/byte; calls run in a worker process that is killed at the deadline or at 1.5 GB resident memory, the input in flight reported) is the only check; the error path of deeply nested documents is quadratic in the depth (capped by the nesting bound)",
         "panic sites: the model keeps three (foundKeys[0], List.Append / Map.Set of an invalid Value) and proves them unreachable; the six explicit panic( calls in the decoder's Go files are enumerated by the translator and reviewed one by one (reviewed_panic_sites, gen_panic_sites_reviewed) but their unreachability is an argument in comments, not a theorem; protoreflect kind-mismatch panics are excluded by checkValueKind (fix 6180e67) for scalar stores and otherwise by the schema being derived from the same descriptor (not modelled)",
         "the quantification over ALL environments is cheap: msg_mutable / list / map accessors are totalised (a non-message value under a message-typed path is treated as absent), so ill-typed environments that the real reflector cannot produce never fail in the model; the environments of the run are dumped from the real reflector",
         "uninterpreted: strconv.ParseFloat, time.Parse, decimal.NewFromString are total Coq functions, i.e. assumed to terminate without panic (finding e0edec1 showed decimal.String() is not harmless; the exponent guard in front of it is modelled); WithProtoToAny not modelled",
@@ -32,7 +33,7 @@ CONFIG = {
 }
 
 MANIFEST = {
-    "text": "Theorems over a Gallina model of the J5 JSON decoder (recursive descent over encoding/json's token stream, the three runtime / protoreflect panic sites that the decoder's own logic must guard kept as Panic outcomes, the explicit panic( calls enumerated and reviewed): for all byte strings, all schema environments (recursive types included), all root types and whatever strconv.ParseFloat/time.Parse/decimal answer, decoding returns success or an error, never a panic, and never exhausts a fuel of (number of tokens + 1) — the index site of decodeOneofInner and the two protoreflect Append/Set sites are proved unreachable with an invalid value. The model is tied to the code by switch tables re-read from the Go AST on every run and by running model and implementation on the same valid, truncated, null-substituted, mutated, random and deeply nested documents; URL-query decoding (propertyAtPath, scalar / array / JSON-container arms) is modelled and proved total for every list of key/value pairs in any visiting order; a crash/deadline oracle runs JSON and URL-query decoding under recover(), documents nested 10^6 deep in a child process.",
+    "text": "Theorems over a Gallina model of the J5 JSON decoder (recursive descent over encoding/json's token stream, the three runtime / protoreflect panic sites that the decoder's own logic must guard kept as Panic outcomes, the explicit panic( calls enumerated and reviewed): for all byte strings, all schema environments (recursive types included), all root types and whatever strconv.ParseFloat/time.Parse/decimal answer, decoding returns success or an error, never a panic, and never exhausts a fuel of (number of tokens + 1) — the index site of decodeOneofInner and the two protoreflect Append/Set sites are proved unreachable with an invalid value. The model is tied to the code by switch tables re-read from the Go AST on every run and by running model and implementation on the same valid, truncated, null-substituted, mutated, random and deeply nested documents; URL-query decoding (propertyAtPath, scalar / array / JSON-container arms) is modelled and proved total for every list of key/value pairs in any visiting order; a crash/deadline/memory oracle runs every JSON and URL-query call in a killable worker process (recover() for panics; kill at the deadline or memory limit, fatal runtime errors seen as the death of the worker; input in flight reported; the run stops after three such failures), including documents nested 10^6 deep through singular, repeated and map message fields.",
     "note": "Trusted: Coq kernel; translator; harness; encoding/json tokenizer, strconv integer parsing, base64 and protoreflect presence semantics are modelled, not verified; ParseFloat/time.Parse/decimal are uninterpreted. Linear time is not claimed: the error path of deeply nested documents is quadratic in the depth (measured, reported in evidence notes).",
     "technique": "Rocq/Coq proof (mutual induction on fuel over the recursive-descent model, case analysis of every panic site) + regenerated switch tables + in-Coq differential correspondence + crash/deadline oracle",
 }
